@@ -29,6 +29,11 @@ func (t *Translator) TransformRequest(ctx context.Context, r *http.Request) (*tr
 		return nil, fmt.Errorf("failed to parse Anthropic request: %w", err)
 	}
 
+	// the body must be exactly one JSON document
+	if _, err := decoder.Token(); err != io.EOF {
+		return nil, fmt.Errorf("failed to parse Anthropic request: unexpected data after JSON document")
+	}
+
 	if err := anthropicReq.Validate(); err != nil {
 		return nil, fmt.Errorf("invalid request: %w", err)
 	}
